@@ -213,6 +213,9 @@ func anaScope() map[string]analyzer.Variable {
 	for _, n := range hostNames {
 		m[n] = all[n]
 	}
+	for n, v := range extraAnaScope {
+		m[n] = v
+	}
 	return m
 }
 func vmScope() map[string]value.Value {
@@ -221,6 +224,9 @@ func vmScope() map[string]value.Value {
 	for _, n := range hostNames {
 		m[n] = all[n]
 	}
+	for n, v := range extraVmScope {
+		m[n] = v
+	}
 	return m
 }
 func treeScope() map[string]ivalue.Value {
@@ -228,6 +234,9 @@ func treeScope() map[string]ivalue.Value {
 	m := map[string]ivalue.Value{}
 	for _, n := range hostNames {
 		m[n] = all[n]
+	}
+	for n, v := range extraTreeScope {
+		m[n] = v
 	}
 	return m
 }
